@@ -64,6 +64,29 @@ def confirm_native(native, v, stream, level, mask):
 
 
 def job_version(job):
+    """one version with stream / level / mask option symbolic.  If the code cannot be followed with the option symbolic (e.g.
+    it builds differently shaped values for a forced and an automatic mask), the job is split into the two cases"""
+    try:
+        return _job_version(job, None)
+    except M.Unsupported as e:
+        if 'unmergeable' not in str(e) and 'merge of' not in str(e):
+            raise
+        T.reset()
+        a = _job_version(job, 0)
+        T.reset()
+        b = _job_version(job, 1)
+        out = dict(a)
+        for k in ('evaluations', 'obligations', 'discharged', 'vacuity', 'panic_obligations', 'solver_time_s', 'steps', 'arms'):
+            out[k] = (a.get(k) or 0) + (b.get(k) or 0)
+        out['failures'] = a.get('failures', []) + b.get('failures', [])
+        out['nontrivial'] = a.get('nontrivial', []) + ['forced ' + x for x in b.get('nontrivial', [])]
+        out['validation'] = {k: a['validation'][k] + b['validation'][k] for k in a['validation']}
+        out['queries'] = {k: a.get('queries', {}).get(k, 0) + b.get('queries', {}).get(k, 0) for k in set(a.get('queries', {})) | set(b.get('queries', {}))}
+        out.setdefault('notes', []).append('case split on the mask option (%s)' % str(e)[:80])
+        return out
+
+
+def _job_version(job, mask_some):
     v, mode, pid, props, seed, nval = job
     prog = worker_prog()
     extra = worker_extra()
@@ -71,7 +94,7 @@ def job_version(job):
            'validation': {'cases': 0, 'disagreements': 0}, 'vacuity': 0, 'stubs': ['score::score -> fresh 32-bit value per call (uninterpreted)']}
     T.set_nolut(mode == 'nolut')
     try:
-        R = X.run_place(prog, v)
+        R = X.run_place(prog, v, mask_some=mask_some)
         I = R['I']
         A = X.assertions(R, v, props)
         items = []
@@ -123,7 +146,8 @@ def job_version(job):
             model = model or {}
             stream = [model.get('s%d' % i, 0) for i in range(len(R['stream']))]
             level = model.get('lvl', 0) % 4
-            forced = model.get('mask_val', 0) % 8 if model.get('mask_some', 0) else None
+            some_ = model.get('mask_some', 0) if mask_some is None else mask_some
+            forced = model.get('mask_val', 0) % 8 if some_ else None
             tries = [forced] if forced is not None else [None] + list(range(8))
             confirmed = False
             what = 'not reproduced: ' + lab
@@ -182,6 +206,8 @@ def job_version(job):
             nat = list(bytes.fromhex(f['data']))
             env = {'s%d' % i: stream[i] for i in range(len(stream))}
             env.update({'lvl': level, 'mask_some': 1, 'mask_val': mask})
+            if mask_some == 0:
+                continue            # this case has no forced mask: the validation inputs (forced masks) belong to the other case
             for q in range(8):
                 env['score%d' % q] = rnd.randrange(1 << 32)
             cache = {}
